@@ -8,7 +8,11 @@ first, then SET/RESET, then `Parse` and execution).
 
 `P : Bytes → Option (List Bytes × Bool)` stands for `queryTopics(Parse(text))` (`none` = parse
 error); proxy and upstream call the same `kafsql.Parse`, so it is ONE parameter of the model.
-`lowerU` stands for `strings.ToLower`.  `path.Match` is modelled for patterns made of literal
+`lowerU` stands for `strings.ToLower` (the driver uses `lowerGo`).  Proxy side (`px…`, `authorize`,
+`proxyView`) and upstream side (`up…`, `upstreamView`) are modelled SEPARATELY, each from its own
+source file; `KafVerif.C37.views_agree` proves that they agree as coded, and the `…G` variants
+carry the two places where they could drift apart (the upstream's entry normalisation, the
+lowering of the proxy's catalog test) as parameters for the witness theorems.  `path.Match` is modelled for patterns made of literal
 bytes, `*` and `?` (`globMatch`); `[`-classes and escapes are outside the modelled domain.
 
 Definitions without suffix are the code after `fixes/C37-*.patch`; `…Old` is the code before.
@@ -23,7 +27,36 @@ structure Acl where
   deny : List Bytes
 deriving Repr, DecidableEq
 
-/-- `path.Match` for literal bytes, `*` (any run without '/') and `?` (one byte other than '/') -/
+def isCont (b : UInt8) : Bool := 0x80 ≤ b && b ≤ 0xBF
+
+/-- the width of `utf8.DecodeRuneInString` at the head of a non-empty string (1 for ASCII and for
+every ill-formed or truncated sequence — Go's `RuneError` has width 1) -/
+def runeLen : Bytes → Nat
+  | [] => 0
+  | b0 :: rest =>
+    if b0 < 0x80 then 1
+    else if 0xC2 ≤ b0 && b0 ≤ 0xDF then
+      match rest with
+      | b1 :: _ => if isCont b1 then 2 else 1
+      | _ => 1
+    else if 0xE0 ≤ b0 && b0 ≤ 0xEF then
+      match rest with
+      | b1 :: b2 :: _ =>
+        let lo : UInt8 := if b0 == 0xE0 then 0xA0 else 0x80
+        let hi : UInt8 := if b0 == 0xED then 0x9F else 0xBF
+        if lo ≤ b1 && b1 ≤ hi && isCont b2 then 3 else 1
+      | _ => 1
+    else if 0xF0 ≤ b0 && b0 ≤ 0xF4 then
+      match rest with
+      | b1 :: b2 :: b3 :: _ =>
+        let lo : UInt8 := if b0 == 0xF0 then 0x90 else 0x80
+        let hi : UInt8 := if b0 == 0xF4 then 0x8F else 0xBF
+        if lo ≤ b1 && b1 ≤ hi && isCont b2 && isCont b3 then 4 else 1
+      | _ => 1
+    else 1
+
+/-- `path.Match` for literal bytes, `*` (any run of bytes without '/') and `?` (one RUNE other than
+'/': `path.Match` decodes UTF-8 there, so `orders?` matches `orders😀`) -/
 def globF : Nat → Bytes → Bytes → Bool
   | 0, _, _ => false
   | _ + 1, [], n => n.isEmpty
@@ -31,7 +64,7 @@ def globF : Nat → Bytes → Bytes → Bool
     globF f p n || (match n with
       | c :: t => c != 47 && globF f (42 :: p) t
       | [] => false)
-  | f + 1, 63 :: p, c :: t => c != 47 && globF f p t
+  | f + 1, 63 :: p, c :: t => c != 47 && globF f p ((c :: t).drop (runeLen (c :: t)))
   | f + 1, c :: p, d :: t => c == d && globF f p t
   | _ + 1, _ :: _, [] => false
 
@@ -55,7 +88,29 @@ def allowShowTopics (a : Acl) : Bool :=
   else if a.allow.isEmpty then true
   else matchPatterns a.allow [42]
 
-/-! ### what the upstream does with a text (server.handleQuery) -/
+/-! ### `strings.ToLower` as far as ASCII patterns can see it -/
+
+/-- `strings.ToLower`, modelled up to the non-ASCII bytes of its result: ASCII capitals are
+lowered, and the only two non-ASCII runes whose `unicode.ToLower` image is an ASCII byte are
+rewritten — `İ` (U+0130, `C4 B0`) ↦ `i` and `K` (U+212A KELVIN SIGN, `E2 84 AA`) ↦ `k`.  Every
+other byte is kept (real `ToLower` rewrites other non-ASCII runes into other non-ASCII runes and
+ill-formed bytes into U+FFFD: all bytes ≥ 0x80, invisible to `Contains`/`HasPrefix` with an ASCII
+pattern).  `C4` and `E2` are lead bytes, never continuation bytes, so the UTF-8 decoder always
+starts a rune there: the byte-level rewrite is exact. -/
+def lowerGo : Bytes → Bytes
+  | 0xC4 :: 0xB0 :: t => 0x69 :: lowerGo t
+  | 0xE2 :: 0x84 :: 0xAA :: t => 0x6B :: lowerGo t
+  | c :: t => lowerB c :: lowerGo t
+  | [] => []
+
+/-- the case folding of a Go `regexp` `(?i)` literal (`unicode.SimpleFold` orbits), brought to the
+same shape: `K` ↦ `k` and `ſ` (U+017F, `C5 BF`) ↦ `s` are in the orbits of `k`/`s`; `İ` is in no
+orbit and is kept.  Only used by the witness `regexp_fold_views_differ`. -/
+def lowerRegexpFold : Bytes → Bytes
+  | 0xC5 :: 0xBF :: t => 0x73 :: lowerRegexpFold t
+  | 0xE2 :: 0x84 :: 0xAA :: t => 0x6B :: lowerRegexpFold t
+  | c :: t => lowerB c :: lowerRegexpFold t
+  | [] => []
 
 /-- `strings.Contains` -/
 def containsSub : Bytes → Bytes → Bool
@@ -66,27 +121,41 @@ structure Env where
   P : Bytes → Option (List Bytes × Bool)
   lowerU : Bytes → Bytes
 
-/-- `handleCatalogQuery` answers (from the list of ALL topics) -/
-def isCatalog (e : Env) (q : Bytes) : Bool :=
+/-! ### what the UPSTREAM does with a text (server.go `handleConnection` → `handleQuery`) -/
+
+/-- what `handleQuery` does to the text on entry before it hands it to `handleCatalogQuery`,
+`handleSetCommand` and `kafsql.Parse`: nothing (`msg.String` is passed through). -/
+def upEntry (q : Bytes) : Bytes := q
+
+/-- `handleCatalogQuery` answers (from the list of ALL topics); `low` is its `strings.ToLower` -/
+def upCatalog (low : Bytes → Bytes) (q : Bytes) : Bool :=
   let trimmed := trimSpace q
   if trimmed.isEmpty then false else
-  let lower := e.lowerU (trimSemi trimmed)
+  let lower := low (trimSemi trimmed)
   containsSub lower (str "pg_catalog") || containsSub lower (str "information_schema")
 
 /-- `handleSetCommand` answers -/
-def isSet (e : Env) (q : Bytes) : Bool :=
+def upSet (low : Bytes → Bytes) (q : Bytes) : Bool :=
   let trimmed := trimSpace q
   if trimmed.isEmpty then false else
-  let lower := e.lowerU trimmed
+  let lower := low trimmed
   hasPrefix lower (str "set ") || hasPrefix lower (str "reset ")
 
-/-- the topics the upstream reads for exactly this text, and whether it lists all topics -/
-def upstreamView (e : Env) (q : Bytes) : List Bytes × Bool :=
-  if isCatalog e q then ([], true)
-  else if isSet e q then ([], false)
+/-- `handleQuery` with its entry normalisation as a parameter: the topics the upstream reads for
+the text it RECEIVED, and whether it lists all topics (catalog first, then SET/RESET, then
+`Parse` + execution) -/
+def upstreamViewG (entry : Bytes → Bytes) (e : Env) (received : Bytes) : List Bytes × Bool :=
+  let q := entry received
+  if upCatalog e.lowerU q then ([], true)
+  else if upSet e.lowerU q then ([], false)
   else match e.P q with
     | none => ([], false)
     | some r => r
+
+/-- the upstream as coded -/
+def upstreamView (e : Env) (q : Bytes) : List Bytes × Bool := upstreamViewG upEntry e q
+
+def upstreamTopics (e : Env) (q : Bytes) : List Bytes := (upstreamView e q).1
 
 /-- "reads only topics the ACL allows" (listing all topics needs the show-topics permission) -/
 def Safe (a : Acl) (v : List Bytes × Bool) : Prop :=
@@ -94,16 +163,45 @@ def Safe (a : Acl) (v : List Bytes × Bool) : Prop :=
 
 /-! ### proxy.go after the fix -/
 
-/-- `authorizeQuery(acl, query)` on the text that is forwarded -/
-def authorize (e : Env) (a : Acl) (q : Bytes) : Bool :=
+/-- the catalog test of `authorizeQuery` (`strings.ToLower(strings.TrimSuffix(trimmed, ";"))` +
+two `strings.Contains`); `low` is the lowering it uses -/
+def pxCatalog (low : Bytes → Bytes) (q : Bytes) : Bool :=
+  let trimmed := trimSpace q
+  if trimmed.isEmpty then false else
+  let lower := low (trimSemi trimmed)
+  containsSub lower (str "pg_catalog") || containsSub lower (str "information_schema")
+
+/-- the SET/RESET test of `authorizeQuery` -/
+def pxSet (low : Bytes → Bytes) (q : Bytes) : Bool :=
+  let trimmed := trimSpace q
+  if trimmed.isEmpty then false else
+  let lower := low trimmed
+  hasPrefix lower (str "set ") || hasPrefix lower (str "reset ")
+
+/-- `authorizeQuery(acl, query)` on the text that is forwarded; `lowCat` is the lowering of its
+catalog test (as coded: `strings.ToLower`, i.e. `e.lowerU`) -/
+def authorizeG (lowCat : Bytes → Bytes) (e : Env) (a : Acl) (q : Bytes) : Bool :=
   if a.allow.isEmpty && a.deny.isEmpty then true
-  else if isCatalog e q then allowShowTopics a
-  else if isSet e q then true
+  else if pxCatalog lowCat q then allowShowTopics a
+  else if pxSet e.lowerU q then true
   else match e.P q with
     | none => false
     | some (topics, showTopics) =>
       if showTopics && !allowShowTopics a then false
       else topics.all (allows a)
+
+def authorize (e : Env) (a : Acl) (q : Bytes) : Bool := authorizeG e.lowerU e a q
+
+/-- the proxy's view of a text: what `authorizeQuery` takes the statement to touch
+(`none` = "proxy cannot authorize query") -/
+def proxyViewG (lowCat : Bytes → Bytes) (e : Env) (q : Bytes) : Option (List Bytes × Bool) :=
+  if pxCatalog lowCat q then some ([], true)
+  else if pxSet e.lowerU q then some ([], false)
+  else e.P q
+
+def proxyView (e : Env) (q : Bytes) : Option (List Bytes × Bool) := proxyViewG e.lowerU e q
+
+def proxyTopics (e : Env) (q : Bytes) : List Bytes := ((proxyView e q).getD ([], false)).1
 
 /-- cache.go: entries oldest first; `enabled = false` is the nil cache (`ttl <= 0 || max <= 0`) -/
 structure Cache where
@@ -186,5 +284,9 @@ def queryTopics : GoResult Q → Option (List Bytes × Bool)
   | .panic => none
 
 def modelEnv : Env := { P := fun q => queryTopics (parse q), lowerU := asciiLower }
+
+/-- the environment of the driver: the parser model and `strings.ToLower` (as far as ASCII
+patterns see it) -/
+def goEnv : Env := { P := fun q => queryTopics (parse q), lowerU := lowerGo }
 
 end KafVerif.SqlProxy
